@@ -52,7 +52,7 @@ CONSTANTS
     TypeWords,    \* type words an entry may carry (known types and unknown words)
     MaxRl,        \* number of reloads
     PreOn,        \* BOOLEAN: the earlier client
-    Free,         \* BOOLEAN: free probe environment (MCIAuth!Events) instead of the scripted probe
+    Free,         \* BOOLEAN: free probe environment (FreeEvents) instead of the scripted probe
     KeepOld       \* BOOLEAN: keep behaviours from different initial files apart (emission runs)
 
 VARIABLES
